@@ -232,6 +232,18 @@ namespace OpenMEEG {
             // An outermost domain is defined as the only domain which has no inside. It is supposed to be
             // unique.
 
+            // Everything below is derived from the meshes and domains: start from scratch, so that calling
+            // finalize() again on the same geometry gives the same result.
+
+            invalid_vertices_.clear();
+            independant_parts.clear();
+            meshpairs.clear();
+            for (auto& mesh : meshes()) {
+                mesh.outermost()       = false;
+                mesh.current_barrier() = false;
+                mesh.isolated()        = false;
+            }
+
             if (has_conductivities())
                 mark_current_barriers(); // mark meshes that touch the domains of null conductivity.
 
